@@ -42,6 +42,7 @@ fn main() {
         "C05-closure-cli" => vcore::props::closure::run_c05_cli(&args, &mut rep),
         "C10-closure" => vcore::props::closure::run_c10_component(&args, &mut rep),
         "C17" => vcore::props::c17::run(&args, &mut rep),
+        "C17-sample" => vcore::props::c17::run_sample(&args, &mut rep),
         "C17-complete" => vcore::props::c17::run_complete(&args, &mut rep),
         "C14" => vcore::props::c14::run(&args, &mut rep),
         "C14-random" => vcore::props::c14::run_random(&args, &mut rep),
